@@ -100,4 +100,55 @@ example : report { vaultPresent := true, logPresent := true, vaultRows := [mkRow
 example : report { vaultPresent := true, logPresent := true, vaultRows := [{ content := [1, 3], checksum := H.leaf [1, 2] }], eventRows := [] } ≠ [] := by
   decide
 
+
+/-! ### external file blobs -/
+
+/-- C16/5.  Blobs stored by the SDK (each under the digest of its bytes) report nothing. -/
+theorem intact_files_report_nothing (blobs : List Bytes) : fileReport (blobs.map mkBlob) = [] := by
+  unfold fileReport
+  rw [List.filterMap_eq_nil_iff]
+  intro f hf
+  obtain ⟨b, _, rfl⟩ := List.mem_map.mp hf
+  simp [checkFile, mkBlob]
+
+/-- what is on disk for the i-th file is replaced -/
+def tamperFile : List BlobFile → Nat → Option Bytes → List BlobFile
+  | [], _, _ => []
+  | f :: t, 0, d => { f with onDisk := d } :: t
+  | f :: t, i + 1, d => f :: tamperFile t i d
+
+/-- C16/6.  Replacing the bytes of any one stored blob by ANY different bytes (one flipped
+bit, a truncation, an extension) or removing it is reported, naming that file, and no other
+file is reported. -/
+theorem tampered_blob_flagged_and_only_it (blobs : List Bytes) (i : Nat) (d : Option Bytes)
+    (hi : i < blobs.length) (hd : d ≠ some blobs[i]) :
+    ∃ fl, fileReport (tamperFile (blobs.map mkBlob) i d) = [fl] ∧
+      (fl = .missingFile (H.leaf blobs[i]) ∨ ∃ a, fl = .corruptedFile (H.leaf blobs[i]) a) := by
+  induction blobs generalizing i with
+  | nil => simp at hi
+  | cons b t ih =>
+    cases i with
+    | zero =>
+      simp only [List.getElem_cons_zero] at hd
+      have hrest : List.filterMap checkFile (t.map mkBlob) = [] := intact_files_report_nothing t
+      simp only [fileReport, tamperFile, List.map_cons, List.filterMap_cons, hrest, List.getElem_cons_zero]
+      cases d with
+      | none => exact ⟨_, by simp [checkFile, mkBlob], Or.inl rfl⟩
+      | some x =>
+        have hx : x ≠ b := fun e => hd (by rw [e])
+        have hne : H.leaf x ≠ H.leaf b := fun e => hx (H.leaf.inj e)
+        refine ⟨.corruptedFile (H.leaf b) (H.leaf x), ?_, Or.inr ⟨_, rfl⟩⟩
+        simp [checkFile, mkBlob, hne]
+    | succ j =>
+      have hj : j < t.length := by simpa using hi
+      obtain ⟨fl, h1, h2⟩ := ih j hj (by simpa using hd)
+      refine ⟨fl, ?_, by simpa using h2⟩
+      simp only [fileReport, tamperFile, List.map_cons, List.filterMap_cons] at h1 ⊢
+      have h0 : checkFile (mkBlob b) = none := by simp [checkFile, mkBlob]
+      rw [h0]
+      exact h1
+
+example : fileReport (tamperFile ([[1], [2]].map mkBlob) 1 (some [2, 0])) =
+    [.corruptedFile (H.leaf [2]) (H.leaf [2, 0])] := by decide
+
 end Sos.Props.C16
